@@ -26,6 +26,29 @@ pub struct WithIgnored {
     pub c: u32,
 }
 #[derive(Savefile)]
+pub struct WithIgnored2 {
+    pub a: u8,
+    #[savefile_introspect_ignore]
+    pub b: u16,
+    #[savefile_introspect_ignore]
+    pub c: u16,
+    pub d: u32,
+    pub e: u8,
+}
+#[derive(Savefile)]
+pub struct WithIgnoredFirstLast {
+    #[savefile_introspect_ignore]
+    pub a: u8,
+    pub b: u16,
+    #[savefile_introspect_ignore]
+    pub c: u16,
+    pub d: u32,
+    #[savefile_introspect_ignore]
+    pub e: u8,
+}
+#[derive(Savefile)]
+pub struct TupleIgnored(pub u8, #[savefile_introspect_ignore] pub u16, #[savefile_introspect_ignore] pub u16, pub u32);
+#[derive(Savefile)]
 pub struct WithKey {
     #[savefile_introspect_key]
     pub name: u8,
@@ -49,6 +72,21 @@ pub mod q {
     intro_harness!(i_enum_unit, EqUnit, 8, 0);
     kproof!(i_ignored, 8, {
         let x = WithIgnored { a: kani::any(), b: kani::any(), c: kani::any() };
+        introspect_check(&x);
+        kani::cover!(true, "reached end");
+    });
+    kproof!(i_ignored2, 8, {
+        let x = WithIgnored2 { a: kani::any(), b: kani::any(), c: kani::any(), d: kani::any(), e: kani::any() };
+        introspect_check(&x);
+        kani::cover!(true, "reached end");
+    });
+    kproof!(i_ignored_first_last, 8, {
+        let x = WithIgnoredFirstLast { a: kani::any(), b: kani::any(), c: kani::any(), d: kani::any(), e: kani::any() };
+        introspect_check(&x);
+        kani::cover!(true, "reached end");
+    });
+    kproof!(i_tuple_ignored, 8, {
+        let x = TupleIgnored(kani::any(), kani::any(), kani::any(), kani::any());
         introspect_check(&x);
         kani::cover!(true, "reached end");
     });
